@@ -214,4 +214,44 @@ def x_evm_by_tx():
     return "\n".join(out) + "\n", info
 
 
-EXTRACTORS = [("evm_watcher", x_evm_watcher), ("evm_by_tx", x_evm_by_tx)]
+def x_evm_poller():
+    """poller.go: when a polled block is published, with which Safe flag, how often a failing poll is retried"""
+    src = rd("node/pkg/ethereum/poller.go")
+    f = re.search(r'func \(b \*BlockPollConnector\) pollBlocks\(', src)
+    if not f:
+        raise Broken("poller.go: pollBlocks not found")
+    body = _body(src, f.end(), "pollBlocks")
+    mg = _pos(body, r'latestBlock, err := b\.getBlock\(timeout, logger, nil, safe\)', "pollBlocks: getBlock(.., nil, safe)")
+    me = _pos(body, r'if err != nil \{[^}]*?return lastBlock, fmt\.Errorf\(', "pollBlocks: error return keeps lastBlock")
+    mc = _pos(body, r'if lastBlock\.Number\.Cmp\(latestBlock\.Number\) (>=|>|<=|<|==) 0 \{\s*\n(?:\s*//[^\n]*\n)*\s*return lastBlock, nil\s*\n\s*\}',
+              "pollBlocks: `if lastBlock.Number.Cmp(latestBlock.Number) <op> 0 { return lastBlock, nil }`")
+    ms = _pos(body, r'b\.blockFeed\.Send\(latestBlock\)\s*\n\s*return latestBlock, nil', "pollBlocks: publish latestBlock and return it")
+    if not (mg.start() < me.start() < mc.start() < ms.start()):
+        raise Broken("pollBlocks: statements are not in the order getBlock, error return, comparison, publish")
+    r = re.search(r'func \(b \*BlockPollConnector\) run\(', src)
+    if not r:
+        raise Broken("poller.go: run not found")
+    rb = _body(src, r.end(), "run")
+    mp = _pos(rb, r'lastBlock, err = b\.pollBlocks\(ctx, logger, lastBlock, (true|false)\)', "run: pollBlocks call")
+    ma = _pos(rb, r'for count := 0; count < (\d+); count\+\+ \{', "run: retry loop")
+    if not re.search(r'enabled := b\.enabled\.Load\(\)\s*\n\s*if !enabled \{\s*\n\s*timer\.Reset\(b\.Delay\)\s*\n\s*continue', rb):
+        raise Broken("run: `if !enabled { timer.Reset; continue }` not found")
+    g = re.search(r'\nfunc getBlock\(', src)
+    if not g:
+        raise Broken("poller.go: getBlock not found")
+    gb = _body(src, g.end(), "getBlock")
+    if not re.search(r'Safe:\s*safe,', gb):
+        raise Broken("getBlock: NewBlock{.. Safe: safe} not found")
+    if not re.search(r'\} else if useFinalized \{\s*\n\s*if safe \{\s*\n\s*numStr = "safe"\s*\n\s*\} else \{\s*\n\s*numStr = "finalized"', gb) or 'numStr = "latest"' not in gb:
+        raise Broken("getBlock: choice of latest / finalized / safe not found")
+    op = mc.group(1)
+    info = {"keep_if_last_cmp_latest": op, "safe_flag": mp.group(1), "attempts": int(ma.group(1))}
+    out = ["(* pollBlocks: `if lastBlock.Number.Cmp(latestBlock.Number) %s 0 { return lastBlock, nil }` (big.Int: no wrap) *)" % op,
+           "Definition evm_poll_not_newer (a b : Z) : bool := %s." % CMP[op],
+           "(* run: `b.pollBlocks(ctx, logger, lastBlock, %s)`: the Safe flag of every published head *)" % mp.group(1),
+           "Definition evm_poll_safe : bool := %s." % mp.group(1),
+           "Definition evm_poll_attempts : Z := %d." % int(ma.group(1))]
+    return "\n".join(out) + "\n", info
+
+
+EXTRACTORS = [("evm_watcher", x_evm_watcher), ("evm_by_tx", x_evm_by_tx), ("evm_poller", x_evm_poller)]
